@@ -4,6 +4,7 @@
    model; "never raises" is "returns Ok". *)
 From EV Require Import Base.Str Base.PyVal Model.Tokenize Model.Editions Model.Filter Model.Pipeline Model.Annotate.
 From EV Require Import Proofs.PipeSpec Proofs.PipeYear Proofs.AnnotateProofs.
+From EV Require Import Model.Resolve Proofs.ResolveSpec Proofs.ResolveTotal.
 Open Scope Z_scope.
 
 (* extraction: every text, every token stream whose special tokens carry the
@@ -31,3 +32,10 @@ Theorem C04_update_total : forall st la lb right x,
   steps_ok st la lb -> 0 < la -> 0 <= x <= la -> exists y, update (mk st) right x = Ok y.
 Proof. exact update_total. Qed.
 Print Assumptions C04_update_total.
+
+(* resolution: every list of citations that carry what extraction guarantees (case citations have
+   a page key and a reporter; a page accepted by str.isdigit() is accepted by int()) *)
+Theorem C04_resolve_total : forall D mx cs,
+  oids_ok cs -> Forall (cit_wf D) cs -> exists r, resolve D mx cs = Ok r.
+Proof. exact resolve_total. Qed.
+Print Assumptions C04_resolve_total.
